@@ -355,7 +355,8 @@ def Srv.onPriority (s : Srv) (sid dep : Nat) : Srv × List Out :=
 
 /-- a user handler returned (`panicked`: with http.ErrAbortHandler). -/
 def Srv.onHandlerExit (s : Srv) (sid : Nat) (panicked : Bool) : Srv × List Out :=
-  let s := { s with running := s.running.filter (· != sid) }
+  if !s.running.contains sid then (s, []) else   -- only a running handler can return
+  let s : Srv := { s with running := s.running.erase sid }
   match s.findStream sid with
   | none => s.handlerDone
   | some st =>
